@@ -398,3 +398,34 @@ mod tests {
         assert!(server_txn.commit().is_ok());
     }
 }
+
+/// Runtime-verification access to the gid allocation / validation rule on an in-memory entry.
+#[cfg(feature = "verif-hooks")]
+pub mod verif_hooks {
+    use super::*;
+
+    /// Run the plugin's rule on a fresh posix entry with this uuid and (optionally) a supplied
+    /// gid number; returns the gid number the entry carries afterwards.
+    pub fn gid_for(
+        uuid: Uuid,
+        posix_account: bool,
+        supplied: Option<u32>,
+    ) -> Result<Option<u32>, OperationError> {
+        let mut e: Entry<EntryInit, EntryNew> = Entry::new();
+        e.add_ava(Attribute::Uuid, Value::Uuid(uuid));
+        e.add_ava(
+            Attribute::Class,
+            if posix_account {
+                EntryClass::PosixAccount.to_value()
+            } else {
+                EntryClass::PosixGroup.to_value()
+            },
+        );
+        if let Some(g) = supplied {
+            e.add_ava(Attribute::GidNumber, Value::new_uint32(g));
+        }
+        let mut e = e.verif_into_invalid_new();
+        apply_gidnumber(&mut e)?;
+        Ok(e.get_ava_single_uint32(Attribute::GidNumber))
+    }
+}
